@@ -382,3 +382,93 @@ Proof.
   destruct H as [A B]; [cbn; lia|intros p Hp; discriminate|reflexivity|].
   split; [exact A|]. intros q c Hqc. apply B; [apply pfx_nil|exact Hqc].
 Qed.
+
+(* ---- a line comment or a description is the last token of its line ------------------------- *)
+Lemma take_line_stops : forall fuel s acc l s', take_line fuel s acc = ROk l s' ->
+  rest s' = [] \/ hd_error (rest s') = Some 10%N.
+Proof.
+  induction fuel as [|f IH]; intros s acc l s'; cbn [take_line]; [discriminate|].
+  unfold peek. destruct (rest s) as [|v t] eqn:Hr; cbn [hd_error].
+  - intros [= <- <-]. left. exact Hr.
+  - destruct (N.eqb v 10) eqn:Ev; [|apply IH].
+    intros [= <- <-]. right. rewrite Hr. cbn. f_equal. lia.
+Qed.
+
+Lemma next_token_after_line fuel s t s' : next_token_fuel fuel s = (LTok t, s') ->
+  ty t = COMMENT \/ ty t = DESCRIPTION -> rest s' = [] \/ hd_error (rest s') = Some 10%N.
+Proof.
+  revert s t s'. induction fuel as [|f IH]; intros s t s'; cbn [next_token_fuel]; [discriminate|].
+  destruct (ch (next s)) as [c|]; [|discriminate].
+  destruct (op_of c) as [op|] eqn:Eop.
+  { intros [= <- <-] [H|H]; cbn in H; subst op; revert Eop; unfold op_of, model_operators; cbn [assoc_N];
+      repeat (match goal with |- context [N.eqb ?k c] => destruct (N.eqb k c) end; [discriminate|]); discriminate. }
+  destruct (N.eqb c 47).
+  { destruct (opt_eq (peek (next s)) 47).
+    - unfold lift_lit, lex_line_comment. destruct (take_line _ (next (next s)) []) as [l s1|d s1|] eqn:E; try discriminate.
+      intros [= <- <-] _. eapply take_line_stops; eauto.
+    - destruct (opt_eq (peek (next s)) 42); unfold lift_lit.
+      + destruct (lex_block_comment (next s)); try discriminate. intros [= <- <-] [H|H]; discriminate.
+      + destruct (lex_regex (next s)); try discriminate. intros [= <- <-] [H|H]; discriminate. }
+  destruct (N.eqb c 34).
+  { unfold lift_lit. destruct (lex_string (next s)); try discriminate. intros [= <- <-] [H|H]; discriminate. }
+  destruct (N.eqb c 124).
+  { unfold lift_lit, lex_description_line. destruct (skip_whitespace _ (next s)) as [s1|]; [|discriminate].
+    destruct (take_line _ s1 []) as [l s2|d s2|] eqn:E; try discriminate.
+    intros [= <- <-] _. eapply take_line_stops; eauto. }
+  destruct (N.eqb c 10).
+  { intros [= <- <-] [H|H]; discriminate. }
+  destruct (is_space c); [apply IH|].
+  destruct (is_digit c).
+  { unfold lex_number. destruct (number_loop _ (next s) false _) as [[typ l] s1|d s1|] eqn:E; try discriminate.
+    intros [= <- <-]. destruct (number_loop_type _ _ _ _ _ _ _ E) as [-> | ->]; intros [H|H]; discriminate. }
+  destruct (is_letter c); [|discriminate].
+  unfold lex_ident. destruct (ident_loop _ (next s) _) as [l s1|d s1|]; try discriminate.
+  destruct (_ || _)%bool; intros [= <- <-] [H|H]; discriminate.
+Qed.
+
+(* from a state whose next rune is a newline, NextToken returns the EOL token *)
+Lemma next_token_at_nl s r : rest s = 10%N :: r -> exists st s', next_token s = (LTok (mkTok EOL [10%N] st st), s').
+Proof.
+  intros Hr. unfold next_token. rewrite Hr. cbn [length next_token_fuel].
+  assert (Hc : ch (next s) = Some 10%N) by (unfold next; rewrite Hr; reflexivity).
+  rewrite Hc. cbn. eauto.
+Qed.
+
+(* in the token list: after COMMENT / DESCRIPTION comes EOL (or nothing) *)
+Fixpoint line_enders (ts : list token) : Prop :=
+  match ts with
+  | [] => True
+  | t :: r => (ty t = COMMENT \/ ty t = DESCRIPTION -> match r with [] => True | u :: _ => ty u = EOL end)
+              /\ line_enders r
+  end.
+
+Lemma all_tokens_loop_enders ff : forall fuel s,
+  let '(ts, ds, b) := all_tokens_loop fuel ff s in
+  line_enders ts /\ (rest s = [] \/ hd_error (rest s) = Some 10%N -> match ts with [] => True | u :: _ => ty u = EOL end).
+Proof.
+  induction fuel as [|f IH]; intros s; cbn [all_tokens_loop]; [split; [exact I|intros; exact I]|].
+  destruct (next_token s) as [[t|d| |] s'] eqn:E.
+  - specialize (IH s'). destruct (all_tokens_loop f ff s') as [[ts ds] b]. destruct IH as [A B].
+    split.
+    + cbn. split; [|exact A]. intros Ht. apply B. eapply next_token_after_line; eauto.
+    + intros [Hr|Hr].
+      * exfalso. unfold next_token in E. rewrite Hr in E. cbn in E. unfold next in E. rewrite Hr in E. cbn in E. discriminate.
+      * destruct (rest s) as [|c r] eqn:Hrs; [discriminate|]. cbn in Hr. injection Hr as ->.
+        destruct (next_token_at_nl s r Hrs) as (st & s2 & E2). rewrite E in E2. injection E2 as -> _. reflexivity.
+  - destruct ff; [split; [exact I|intros; exact I]|].
+    specialize (IH s'). destruct (all_tokens_loop f false s') as [[ts ds] b]. destruct IH as [A B].
+    split; [exact A|]. intros [Hr|Hr].
+    + exfalso. unfold next_token in E. rewrite Hr in E. cbn in E. unfold next in E. rewrite Hr in E. cbn in E. discriminate.
+    + destruct (rest s) as [|c r] eqn:Hrs; [discriminate|]. cbn in Hr. injection Hr as ->.
+      destruct (next_token_at_nl s r Hrs) as (st & s2 & E2). rewrite E in E2. discriminate.
+  - split; [exact I|intros; exact I].
+  - split; [exact I|intros; exact I].
+Qed.
+
+Theorem all_tokens_enders ff data ts : all_tokens ff data = LexOk ts -> line_enders ts.
+Proof.
+  unfold all_tokens. pose proof (all_tokens_loop_enders ff (S (S (length data))) (new_lexer data)) as H.
+  destruct (all_tokens_loop (S (S (length data))) ff (new_lexer data)) as [[ts' ds] b].
+  destruct b; [discriminate|]. destruct ds; [|discriminate]. intros [= <-]. apply H.
+Qed.
+
